@@ -687,19 +687,19 @@ PROPS.update({
 
 PROPS.update({
     "C20": {
-        # (generator, quick n, thorough n): n = tessellator cases, the cheaper ops are emitted 2n times each.
-        # measured: n = 9600 -> 105 600 lines, 21 s wall on 16 cores (harness + oracle); thorough ~ 4 min
+        # (generator, quick n, thorough n): n = general tessellator cases + n coarse-tolerance cases, the cheaper ops are emitted 2n times each.
+        # measured: n = 9600 -> 115 290 lines, 8 s wall on 16 cores (harness + oracle); thorough ~ 2 min
         "generators": [("c20", 9600, 96000)],
         "modules": ["S2.Approx", "S2.F64", "S2.F64Extra", "S2.STUV", "S2.CellID", "S2.Hilbert"],
-        "rule": "c20tess: geodesic edges (proj) / planar edges (unproj) x {plate carree, mercator} x scales {pi, 180, 1, 2^20, 1e-3, "
+        "rule": "c20tess (n general cases + n cases with tolerance 10^U(-1,0) or 1 rad): geodesic edges (proj) / planar edges (unproj) x {plate carree, mercator} x scales {pi, 180, 1, 2^20, 1e-3, "
                 "20037508.34 (web mercator metres), 0.5, 648000 (arc seconds)} x tolerances {1e-13, 1, 10^U(-13,-11), 10^U(-2,0), 10^U(-13,0)}; "
                 "edge centre class: equator crossing / antimeridian crossing / both / high latitude (plate carree to 89.9 deg, mercator to 85 deg, "
                 "89 deg for tolerances >= 1e-7) / uniform; direction east-west, along a meridian (incl. over the pole), random; mirrored about the equator "
                 "(equal |lat|, worst case of a midpoint estimate); an endpoint exactly at a pole (plate carree); length <= 250*sqrt(tol) so that chains stay "
                 "below ~500 vertices; planar inputs also given as unwrapped representatives (+- one period). The harness measures by dense sampling "
                 "(up to 1024 points per output segment, 120 000 evaluations per case) the largest distance from a point of the OUTPUT chain to the INPUT edge "
-                "(proj: planar segment mapped back vs geodesic, DistanceFromSegment; unproj: geodesic chain vs the projected planar edge, golden-section search "
-                "for the nearest curve point); the oracle compares exactly with tol*(1+2^-20)+2^-50 and checks first / last vertex (modulo the wrap period) "
+                "(proj: planar segment mapped back vs geodesic, DistanceFromSegment; unproj: geodesic chain vs the projected planar edge, nearest curve point by a 48-point scan of the WHOLE edge + "
+                "golden section on the two best basins); the oracle compares exactly with tol*(1+2^-20)+2^-50 and checks first / last vertex (modulo the wrap period) "
                 "and that consecutive planar vertices are at most half a period apart. c20wrap: WrapDestination / Interpolate bit-exact vs the soft-float model "
                 "(operands half a period apart +- ulps, whole periods apart, 1e-9 periods apart). c20projrt: Unproject(Project(p)) for points near poles, axis "
                 "points, antimeridian, equator, cube corners. c20subs: polylines of 0..300 vertices (straight with lateral noise about the tolerance, smooth curves, "
@@ -709,7 +709,9 @@ PROPS.update({
                 "segment measured in Go. c20snapc / c20snapi: levels 0..30 (and NewCellIDSnapper()) / exponents 0..10 on cell corners (exact and nudged inwards "
                 "by 1e-16..1e-3), cell edge midpoints, half-way points of the integer grid, near-pole / antimeridian points, axis points: the result is recomputed "
                 "bit-exactly (cell centre) resp. against the grid site recomputed from integer coordinates; |p-q|^2 compared exactly with the declared radius. "
-                "c20rad: all 31 levels / 11 exponents: radius formula bit-exact, inverse functions. "
+                "c20snapi additionally compares the stages of the repaired SnapPoint (degrees, math.Round, k*(1/10^e), *Degree) bit-exactly with the model "
+                "(snapDegreeCoord) and q bit-exactly with PointFromLatLng of the modelled angles. c20rad: all 31 levels / 11 exponents: radius formula bit-exact, "
+                "inverse functions. c20scaled: the tessellator's threshold (hook) enclosed by Taylor bounds of sin at the bit-exact argument scaleFactor*max(tol,1e-13). "
                 "non-trivial = a c20tess line whose chain has >= 3 vertices, a c20subs line with >= 3 vertices, any c20snap*/c20projrt line; distinct = distinct (op, arguments)",
         "nontrivial": lambda l: (l.startswith("c20tess") and l.split(" = ", 1)[-1].split(" ", 1)[0] not in ("1", "2"))
                                 or (l.startswith("c20subs") and l.split(" ")[2].count(",") >= 2)
@@ -722,6 +724,8 @@ PROPS.update({
             "distances are decided exactly in the oracle",
             "libm is not modelled: IntLatLngSnapper.SnapPoint, exponentForMaxSnapRadius, Project / Unproject and findEndVertex's trigonometry are judged, not modelled",
             "export hooks s2/verif_export_c20.go (build tag verif): findEndVertex, tessellator threshold / estimate, the four unexported snap-radius functions",
+            "c20snapi ties IntLatLngSnapper.SnapPoint to the model through a restatement of its stages with the public API in the harness (LatLngFromPoint, "
+            "Angle.Degrees, math.Round, LatLngFromDegrees, PointFromLatLng); q must equal the restated site bit for bit",
         ],
         "assumptions": [
             "tessellator inputs: unit-length points, edges shorter than 179.9 deg, Mercator latitudes <= 85 deg (89 deg for tolerances >= 1e-7) — the library documents "
@@ -731,13 +735,15 @@ PROPS.update({
             "polylines have no antipodal neighbours; no NaN coordinates",
         ],
         "partial": ["all tolerance claims are judged, not proved: SubsampleWithinTolerance, TessellatorEstimateSound, SnapCellIDWithinRadius are `def ... : Prop`; "
-                    "AppendProjected_within_partial / AppendUnprojected_within_partial are Thm(hyp) under the abstract soundness of the error test"],
-        "level_text": "proof (Lean 4): 38 theorems — SubsampleVertices loop over an abstract findEndVertex (first index, strictly increasing, in range, last vertex "
+                    "AppendProjected_within_partial / AppendUnprojected_within_partial are Thm(hyp) under ONLY the abstract soundness of the error test (+ monotonicity "
+                    "of 'within' under halving an edge); continuity of the emitted planar chain is a theorem (projectedSegs_planar)"],
+        "level_text": "proof (Lean 4): 42 theorems — SubsampleVertices loop over an abstract findEndVertex (first index, strictly increasing, in range, last vertex "
                       "kept in value, no equal neighbours, fuel sufficiency), findEndVertex control flow meets the contract, tessellator bisection over an abstract "
-                      "projection (endpoints, every leaf passed the test, sphere continuity, tolerance under the soundness hypothesis), snap-radius inverse "
-                      "functions for all levels (bit-exact soft-float)",
-        "level_note": "partial: every numeric tolerance is judged by the oracle only. Findings: D15 (scale factor not applied), pole-crossing edges "
-                      "(planar chain jumps by a whole period: projected_planar_chain_can_break), NewCellIDSnapper radius 0, IntLatLngSnapper.SnapPoint "
-                      "snaps on a radian grid with int32 overflow",
+                      "projection (endpoints, every leaf passed the test, sphere AND planar continuity of the emitted chains, tolerance of every emitted segment under "
+                      "the soundness hypothesis of the estimator), scaled threshold of the repaired constructor, snap-radius inverse functions for all levels and the "
+                      "default snapper (bit-exact soft-float), math.Round nearest-integer property of the integer lat-lng grid",
+        "level_note": "partial: every numeric tolerance is judged by the oracle only. Fixed findings: D15 (scale factor), D44 (NewCellIDSnapper radius 0, "
+                      "IntLatLngSnapper radian grid / int32), D45 (pole-crossing edges: chain jumped by a whole period). No open finding: the former "
+                      "'tess-tolerance-coarse' report was a measurement error of the harness (half-period tie), corrected",
     },
 })
